@@ -65,7 +65,8 @@ func main() {
 	closedUses := []string{}
 	recvWrites := []string{}
 	boltOpenArgs := []string{}
-	indexSites := []string{} // every index / slice expression (maps included: the syntax does not tell them apart)
+	storeIfaces := []string{} // the interface types of package store, with their methods
+	indexSites := []string{}  // every index / slice expression (maps included: the syntax does not tell them apart)
 	// decision logic, per property: the full (comment-free, whitespace-normalised) text of the small functions
 	// that decide plans, windows, counts and ranges
 	logicFns := map[string]string{}
@@ -130,6 +131,8 @@ func main() {
 		{"C07", []string{"badger.badgerStore.Begin", "badger.badgerTx.Commit", "badger.badgerTx.Rollback", "badger.badgerTx.done",
 			"bbolt.boltStore.Begin", "bbolt.boltTx.Commit", "bbolt.boltTx.Rollback", "clover.DB.Close", "clover..Open", "clover..OpenWithStore"}},
 		{"C15", []string{"badger.badgerTx.done"}},
+		// C05: every write an operation makes goes through the one store transaction - the index maintenance included
+		{"C05", []string{"index.rangeIndex.Drop", "index.rangeIndex.Add", "index.rangeIndex.Remove"}},
 		{"C15", []string{"bbolt.boltTx.Set", "bbolt.boltTx.Get", "bbolt.boltTx.Delete", "bbolt.boltTx.Cursor", "bbolt.boltTx.Commit", "bbolt.boltTx.Rollback", "bbolt.boltTx.bucket", "bbolt.boltStore.Begin",
 			"bbolt.boltCursor.Seek", "bbolt.boltCursor.adjustSeek", "bbolt.boltCursor.Next", "bbolt.boltCursor.Valid", "bbolt.boltCursor.Item", "bbolt.boltCursor.Close",
 			"badger.badgerTx.Set", "badger..getItemValue", "badger.badgerTx.Get", "badger.badgerTx.Commit", "badger.badgerTx.Rollback", "badger.badgerTx.Cursor", "badger.badgerStore.Begin",
@@ -190,6 +193,23 @@ func main() {
 				for _, decl := range file.Decls {
 					switch dcl := decl.(type) {
 					case *ast.GenDecl:
+						if dcl.Tok == token.TYPE && pn == "store" {
+							for _, sp := range dcl.Specs {
+								ts := sp.(*ast.TypeSpec)
+								if it, ok := ts.Type.(*ast.InterfaceType); ok {
+									ms := []string{}
+									for _, m := range it.Methods.List {
+										for _, n := range m.Names {
+											ms = append(ms, n.Name)
+										}
+										if len(m.Names) == 0 {
+											ms = append(ms, "embeds "+exprStr(m.Type))
+										}
+									}
+									storeIfaces = append(storeIfaces, ts.Name.Name+": "+strings.Join(ms, " "))
+								}
+							}
+						}
 						if dcl.Tok == token.VAR {
 							for _, sp := range dcl.Specs {
 								vs := sp.(*ast.ValueSpec)
@@ -432,6 +452,8 @@ func main() {
 	strList("packageVars", "package-level variables outside tests", pkgVars)
 	sort.Strings(recvWrites)
 	strList("receiverWrites", "assignments through a method receiver (all packages)", recvWrites)
+	sort.Strings(storeIfaces)
+	strList("storeInterfaces", "the interface types package store declares (what a transaction can be asked to do)", storeIfaces)
 	sort.Strings(indexSites)
 	strList("indexSites", "every index and slice expression outside tests (on maps as well as on slices, arrays and strings)", indexSites)
 	sort.Strings(layout)
